@@ -14,6 +14,10 @@ mod real {
     pub fn run() -> Result<()> { main() }
 }
 
+thread_local! {
+    static WORLD: std::cell::RefCell<Option<std::rc::Rc<std::cell::RefCell<gdsim::world::World>>>> = const { std::cell::RefCell::new(None) };
+}
+
 fn main() -> ExitCode {
     if let Ok(path) = std::env::var("VERIF_CLI_SCENARIO") {
         match std::fs::read(&path).map_err(|e| e.to_string()).and_then(|b| gdsim::props::c19::world_from_scenario_file(&b)) {
@@ -23,7 +27,8 @@ fn main() -> ExitCode {
                 // the HTTP client's transport and clock (vendor/ureq) lead to the same world
                 gdsim::install_http_transport(Box::new(gdsim::world::SimBackend(rc.clone())));
                 // and so do sleeps
-                gdsim::sleephook::set_world(Some(rc));
+                gdsim::sleephook::set_world(Some(rc.clone()));
+                WORLD.with(|w| *w.borrow_mut() = Some(rc));
             }
             Err(e) => {
                 eprintln!("HARNESS-ERROR clisim: bad scenario file {path}: {e}");
@@ -32,7 +37,13 @@ fn main() -> ExitCode {
         }
     }
     // what `fn main() -> Result<()>` does in the real binary
-    match real::run() {
+    let result = real::run();
+    // for the wire oracle of the parent: what the tool transmitted (destination, bytes)
+    if let (Ok(path), Some(rc)) = (std::env::var("VERIF_CLI_SENDS"), WORLD.with(|w| w.borrow().clone())) {
+        let sends: Vec<(String, String)> = rc.borrow().client_sends().into_iter().map(|(to, d)| (to.to_string(), d.iter().map(|b| format!("{b:02x}")).collect())).collect();
+        let _ = std::fs::write(path, serde_json::to_vec(&sends).unwrap_or_default());
+    }
+    match result {
         Ok(()) => ExitCode::SUCCESS,
         Err(e) => {
             eprintln!("Error: {e:?}");
